@@ -373,7 +373,57 @@ def r5_solvepsd(ctx):
     ctx.check(ok, "solvepsd: df = diff(freq)", fs[0] if fs else fn)
 
 
+PARTITION_NAMES = {"rb", "el", "rf", "kdof", "nonrf", "_rb", "_el"}
+
+
+def r6_paired_advanced_indices(ctx):
+    """A partition vector is an index *array* whenever the partitions are interleaved (self.slices False).  Two array-valued
+    index elements in one subscript are paired element-wise by numpy instead of selecting the rows x columns grid, so such a
+    subscript is only valid through np.ix_ or under a `self.slices` guard."""
+    n = 0
+    for rel in (O.BASE, O.UNC, O.FD, O.SE2, O.NM):
+        m = ctx.src.mod(rel)
+        for q, fn in sorted(m.funcs.items()):
+            # local names bound to partition vectors / boolean masks
+            part, mask = set(), set()
+            for st in ast.walk(fn):
+                if isinstance(st, ast.Assign) and len(st.targets) == 1 and isinstance(st.targets[0], ast.Name):
+                    v = st.value
+                    d = dotted(v)
+                    if d and d.startswith("self.") and d[5:] in PARTITION_NAMES:
+                        part.add(st.targets[0].id)
+                    if isinstance(v, ast.Compare):
+                        mask.add(st.targets[0].id)
+            for sub in ast.walk(fn):
+                if not (isinstance(sub, ast.Subscript) and isinstance(sub.slice, ast.Tuple)):
+                    continue
+                kinds = []
+                for e in sub.slice.elts:
+                    d = dotted(e)
+                    if d and ((d.startswith("self.") and d[5:] in PARTITION_NAMES) or d in part):
+                        kinds.append("P")
+                    elif d and d in mask:
+                        kinds.append("M")
+                    else:
+                        kinds.append("-")
+                if kinds.count("P") + kinds.count("M") < 2:
+                    continue
+                n += 1
+                guarded = False
+                for a in ancestors(sub):
+                    if isinstance(a, ast.If) and ast.unparse(a.test).replace(" ", "") == "self.slices" and \
+                            any(sub is y for x in a.body for y in ast.walk(x)):
+                        guarded = True
+                ctx.check(guarded, f"{q}: `{ast.unparse(sub)}` combines two array-valued indices only where the partitions are known to be slices", sub,
+                          None if guarded else "a partition vector is an index array when rb/el/rf modes are interleaved; numpy then pairs the two index "
+                                               "arrays element-wise (shape-mismatch ValueError, or silently the wrong elements): use np.ix_ or index in two steps; "
+                                               "witness: SolveUnc(m, b, k=[0, 5e3, 0, 8e4]).fsolve(F, freq) raises",
+                          key=f"C02-R6|{q}|{ast.unparse(sub)}")
+    ctx.check(n >= 1, f"paired-index rule bound to {n} subscripts", O.UNC + ":1", nontrivial=False)
+
+
 RULES = [
+    ("C02-R6", r6_paired_advanced_indices, 2),
     ("C02-R1", r1_dynamic_stiffness, 8),
     ("C02-R2", r2_derivative_relations, 17),
     ("C02-R3", r3_option_gating, 12),
